@@ -628,9 +628,11 @@ func S7(rc *RC) {
 				if !ir.Implies(f, sizeEq) && !ir.Implies(f, alt) {
 					bad = append(bad, "reshape reachable without the total-size equality check")
 				}
-				notNCView := ir.BOr(ir.BAtom("($r.viewOf == 0)"), ir.BNot(ir.BAtom("$r.o.IsNotContiguous()")))
-				if !ir.Implies(f, notNCView) {
-					bad = append(bad, "reshape reachable for a non-contiguous view (guard: "+strings.Join(p.Guards, " && ")+")")
+				// any tensor with gaps between its elements - a view, or the clone of one, which owns
+				// its memory but keeps the view's strides (finding 78)
+				noGaps := ir.BNot(ir.BAtom("$r.o.IsNotContiguous()"))
+				if !ir.Implies(f, noGaps) {
+					bad = append(bad, "reshape reachable for a non-contiguous tensor (guard: "+strings.Join(p.Guards, " && ")+")")
 				}
 				materialised := ir.Implies(f, ir.BAtom("$r.old.IsZero()"))
 				for _, st := range p.Steps {
